@@ -110,11 +110,22 @@ pub struct Local {
 
 /// the C13 relation on one source; returns false when the source itself does not parse
 pub fn check_source(src: &str, class: &str, l: &mut Local) -> bool {
+    check_source_with(src, None, class, l)
+}
+
+/// `reference`: a source text that denotes the same program by the language's definition
+/// and that the formatter is allowed to rewrite `src` into (`x |> f(_, a)` and `x |> f(a)`:
+/// an unlabelled hole in first position is what a pipe fills anyway, but the two parse to
+/// different trees).  The formatted text must then parse to the reference's tree.
+pub fn check_source_with(src: &str, reference: Option<&str>, class: &str, l: &mut Local) -> bool {
     l.cases += 1;
-    let case = json!({"engine":"c13","class":class,"source":src});
+    let case = json!({"engine":"c13","class":class,"source":src,"reference":reference});
     let r = guarded(|| {
         let a = parse(src)?;
-        let (a_ast, a_comments) = (a.ast.clone(), a.comments.clone());
+        let (mut a_ast, a_comments) = (a.ast.clone(), a.comments.clone());
+        if let Some(r) = reference {
+            a_ast = parse(r)?.ast;
+        }
         let out = format(a, src);
         Ok::<_, String>((a_ast, a_comments, out))
     });
@@ -293,13 +304,137 @@ pub fn templates() -> Vec<(&'static str, String)> {
     ]
 }
 
+
+/// Shape families: the formatter chooses between several spellings of calls, constructor
+/// applications, captures, constructor patterns and soft casts depending on the *shape* of
+/// the arguments (labelled or not, a hole, a "breakable" last argument, punned fields, a
+/// spread, an implicit pattern).  Every combination of those shape features is written out;
+/// the parser decides which are programs.
+pub fn shape_families(tier: Tier) -> Vec<(&'static str, String, Option<String>)> {
+    let mut out: Vec<(&'static str, String)> = vec![];
+    let mut refs: std::collections::HashMap<String, String> = std::collections::HashMap::new();
+    let decl = "type Foo {\n  a: Int,\n  b: List<Int>,\n  c: Int,\n}\n\nfn foo(a: Int, b: List<Int>, c: Int) {\n  a + c\n}\n\n";
+    // (1) calls / constructor applications / captures
+    let values = ["_", "1", "x", "[1, 2]", "(1, 2)", "fn(z) { z }", "Some(x)", "{\n    let q = 1\n    q\n  }"];
+    let labels = ["", "a: ", "b: ", "c: "];
+    let mut arglists: Vec<Vec<String>> = vec![];
+    let single: Vec<String> = labels.iter().flat_map(|l| values.iter().map(move |v| format!("{l}{v}"))).collect();
+    for a in &single {
+        arglists.push(vec![a.clone()]);
+        for b in &single {
+            arglists.push(vec![a.clone(), b.clone()]);
+        }
+    }
+    if tier == Tier::Thorough {
+        for a in &single {
+            for b in &single {
+                for c in &single {
+                    arglists.push(vec![a.clone(), b.clone(), c.clone()]);
+                }
+            }
+        }
+    } else {
+        // three arguments: every label pattern, values restricted to hole / atom / list
+        let small: Vec<String> = labels.iter().flat_map(|l| ["_", "x", "[1, 2]"].iter().map(move |v| format!("{l}{v}"))).collect();
+        for a in &small {
+            for b in &small {
+                for c in &small {
+                    arglists.push(vec![a.clone(), b.clone(), c.clone()]);
+                }
+            }
+        }
+    }
+    for args in &arglists {
+        // no label twice
+        let ls: Vec<&str> = args.iter().filter_map(|a| a.split_once(": ").map(|(l, _)| l)).filter(|l| l.len() == 1).collect();
+        if (1..ls.len()).any(|i| ls[..i].contains(&ls[i])) {
+            continue;
+        }
+        let joined = args.join(", ");
+        out.push(("call-shape", format!("{decl}fn f(x: Int) {{\n  foo({joined})\n}}\n")));
+        out.push(("constructor-shape", format!("{decl}fn f(x: Int) {{\n  Foo({joined})\n}}\n")));
+        if args.iter().all(|a| a.contains(": ") && !a.starts_with("fn(")) {
+            out.push(("constructor-shape", format!("{decl}fn f(x: Int) {{\n  Foo {{ {joined} }}\n}}\n")));
+        }
+        let piped = format!("{decl}fn f(x: Int) {{\n  x |> foo({joined})\n}}\n");
+        if args[0] == "_" && args.iter().filter(|a| a.ends_with('_') && (a.len() == 1 || a.ends_with(": _"))).count() == 1 {
+            // the only hole, unlabelled and first: what the pipe fills anyway; the formatter may
+            // (and does) drop it
+            let rest = if args.len() == 1 { String::new() } else { format!("({})", args[1..].join(", ")) };
+            refs.insert(piped.clone(), format!("{decl}fn f(x: Int) {{\n  x |> foo{rest}\n}}\n"));
+        }
+        out.push(("pipe-shape", piped));
+    }
+    // (2) constructor patterns
+    let field_pats = |l: &str| -> Vec<String> { vec![String::new(), l.to_string(), format!("{l}: _"), format!("{l}: y{l}"), format!("{l}: 1"), format!("{l}: []"), format!("{l}: Some(z{l})")] };
+    let mut pats: Vec<String> = vec!["Foo { .. }".into(), "Foo(..)".into(), "Foo(_, _, _)".into(), "Foo(p, [], 1)".into(), "Foo(_, [h, ..], _)".into(), "Foo(1, ..)".into(), "Foo(p, ..)".into()];
+    for fa in field_pats("a") {
+        for fb in field_pats("b") {
+            for fc in field_pats("c") {
+                let fs: Vec<&String> = [&fa, &fb, &fc].into_iter().filter(|f| !f.is_empty()).collect();
+                if fs.is_empty() {
+                    continue;
+                }
+                let body = fs.iter().map(|f| f.as_str()).collect::<Vec<_>>().join(", ");
+                if fs.len() == 3 {
+                    pats.push(format!("Foo {{ {body} }}"));
+                }
+                pats.push(format!("Foo {{ {body}, .. }}"));
+                if tier == Tier::Thorough {
+                    let rev = fs.iter().rev().map(|f| f.as_str()).collect::<Vec<_>>().join(", ");
+                    pats.push(format!("Foo {{ {rev}, .. }}"));
+                }
+            }
+        }
+    }
+    for p in &pats {
+        out.push(("pattern-shape", format!("{decl}fn f(x: Foo) {{\n  when x is {{\n    {p} -> 1\n    _ -> 2\n  }}\n}}\n")));
+        out.push(("pattern-shape", format!("{decl}fn f(x: Foo) {{\n  expect {p} = x\n  1\n}}\n")));
+        out.push(("pattern-shape", format!("{decl}fn f(x: Foo) {{\n  let {p} = x\n  1\n}}\n")));
+        out.push(("pattern-shape", format!("{decl}fn f(x: Data) {{\n  if x is {p}: Foo {{\n    1\n  }} else {{\n    2\n  }}\n}}\n")));
+        out.push(("pattern-shape", format!("{decl}fn f(xs: List<Foo>) {{\n  when xs is {{\n    [{p}, ..] | [_, {p}] -> 1\n    _ -> 2\n  }}\n}}\n")));
+    }
+    // (3) soft casts: subject x pattern x annotation, in first and in `else if` position
+    let subjects = ["x", "g(x)", "x.a", "(x)"];
+    let soft_pats = ["", "_", "_y", "y", "x", "Foo { a, .. }", "Foo { a: _, .. }", "Some(z)", "(p, q)", "[h, ..]"];
+    let annots = ["", ": Foo", ": Option<Int>", ": Data"];
+    for sj in subjects {
+        for pt in soft_pats {
+            for an in annots {
+                let is = match (pt, an) {
+                    ("", "") => continue,
+                    ("", a) => a[2..].to_string(),
+                    (p, a) => format!("{p}{a}"),
+                };
+                out.push(("soft-cast-shape", format!("{decl}fn f(x: Data, w: Data) {{\n  if {sj} is {is} {{\n    1\n  }} else {{\n    2\n  }}\n}}\n")));
+                out.push(("soft-cast-shape", format!("{decl}fn f(x: Data, w: Data) {{\n  if w is Int {{\n    0\n  }} else if {sj} is {is} {{\n    1\n  }} else {{\n    2\n  }}\n}}\n")));
+            }
+        }
+    }
+    // (4) assignments: let / expect x (annotation | none) x (var | discard | pattern), `<-` backpassing
+    for kw in ["let", "expect"] {
+        for pt in ["y", "_", "_y", "Some(y)", "(y, _)", "[y, ..]", "Foo { a, .. }"] {
+            for an in ["", ": Int", ": Option<Int>", ": Foo"] {
+                for rhs in ["x", "g(x)", "{\n    let q = x\n    q\n  }", "if x {\n    1\n  } else {\n    2\n  }", "when x is {\n    _ -> 1\n  }"] {
+                    out.push(("assignment-shape", format!("{decl}fn f(x) {{\n  {kw} {pt}{an} = {rhs}\n  1\n}}\n")));
+                }
+                out.push(("assignment-shape", format!("{decl}fn f(x) {{\n  {kw} {pt}{an} <- g(x)\n  1\n}}\n")));
+            }
+        }
+    }
+    out.into_iter().map(|(c, s)| {
+        let r = refs.get(&s).cloned();
+        (c, s, r)
+    }).collect()
+}
+
 // ---------------------------------------------------------------------------------------
 
 pub fn run(tier: Tier, replay: Option<String>) -> i32 {
     if let Some(p) = replay {
         let doc: serde_json::Value = serde_json::from_str(&std::fs::read_to_string(&p).expect("read")).expect("json");
         let mut l = Local::default();
-        check_source(doc["case"]["source"].as_str().unwrap_or(""), "replay", &mut l);
+        check_source_with(doc["case"]["source"].as_str().unwrap_or(""), doc["case"]["reference"].as_str(), "replay", &mut l);
         for v in &l.violations {
             println!("VIOLATION property=C13 replay={p}\n  {}", v.what);
         }
@@ -324,6 +459,15 @@ pub fn run(tier: Tier, replay: Option<String>) -> i32 {
     let tpls = templates();
     for (c, s) in &tpls {
         items.push((c.to_string(), s.clone()));
+    }
+    let shapes = shape_families(tier);
+    let n_shapes = shapes.len();
+    let mut references: std::collections::HashMap<String, String> = std::collections::HashMap::new();
+    for (c, s, r) in shapes {
+        if let Some(r) = r {
+            references.insert(s.clone(), r);
+        }
+        items.push((c.to_string(), s));
     }
     // comments at every token gap of the templates and of the smaller shipped files
     let mut comment_sources: Vec<String> = tpls.iter().map(|(_, s)| s.clone()).collect();
@@ -391,7 +535,7 @@ pub fn run(tier: Tier, replay: Option<String>) -> i32 {
     let cap = Some(Duration::from_secs(if tier == Tier::Quick { 45 } else { 1500 }));
     let out = par_indices(items.len() as u64, 16, cap, |_| Local::default(), |l, i| {
         let (c, s) = &items[i as usize];
-        if !check_source(s, c, l) && !c.starts_with("operator-nest") && c != "shipped-file" {
+        if !check_source_with(s, references.get(s).map(|r| r.as_str()), c, l) && !c.starts_with("operator-nest") && !c.ends_with("-shape") && c != "shipped-file" {
             l.violations.push(Violation { signature: format!("input-does-not-parse|{c}"), what: format!("machinery: a template / shipped file does not parse:\n{}", s.chars().take(400).collect::<String>()), case: json!({"engine":"c13","source":s}) });
         }
     }, |l| l);
@@ -420,6 +564,7 @@ pub fn run(tier: Tier, replay: Option<String>) -> i32 {
     run.set("shipped_files", files.len() as u64);
     run.set("operator_nest_expressions", nests.len() as u64);
     run.set("templates", tpls.len() as u64);
+    run.set("shape_family_sources", n_shapes as u64);
     run.set("comment_insertions_kept", gaps);
     run.set("sources", items.len() as u64);
     run.set("sources_parsed", t.parsed);
@@ -431,7 +576,7 @@ pub fn run(tier: Tier, replay: Option<String>) -> i32 {
     run.set("traces_validated_against_impl", t.parsed);
     run.set("evaluations", t.cases);
     run.set("distinct_nontrivial", t.changed_by_formatter);
-    run.set("rule", "shipped .ak files; every binary operator pair (x unary operators, `?`) in every explicit and implicit grouping to depth 2 (3 thorough) in 5 expression contexts; constructor / pattern / literal / definition / validator / test / control-flow templates; every token gap of the templates and small shipped files x 3 comment kinds (kept when the insertion leaves the parsed program unchanged); oracle: parse . format . parse == parse (span-erased AST), comments preserved in order, format idempotent; distinct_nontrivial = sources the formatter actually changed");
+    run.set("rule", "shipped .ak files; every binary operator pair (x unary operators, `?`) in every explicit and implicit grouping to depth 2 (3 thorough) in 5 expression contexts; constructor / pattern / literal / definition / validator / test / control-flow templates; shape families (calls, constructor applications, captures and pipes over every label pattern x {hole, atom, list, tuple, lambda, block} arguments; constructor patterns over every punned/labelled/discarded/spread field combination in when/let/expect/soft-cast/alternative positions; soft casts over subject x pattern x annotation; assignments over keyword x pattern x annotation x right-hand side) - the parser decides which are programs; every token gap of the templates and small shipped files x 3 comment kinds (kept when the insertion leaves the parsed program unchanged); oracle: parse . format . parse == parse (span-erased AST), comments preserved in order, format idempotent; distinct_nontrivial = sources the formatter actually changed");
     run.assume("two programs are the same when the Debug rendering of their definitions is equal after erasing source spans");
     if t.parsed < 500 || t.changed_by_formatter == 0 {
         run.machinery_error("vacuous: fewer than 500 sources parsed or the formatter never changed anything");
